@@ -37,6 +37,9 @@ def main():
             print(c, r.returncode, len(v), v[:2], flush=True)
     finally:
         sh(f"git -C {REPO} reset -q --hard HEAD")
+        # the evidence written while the change was applied does not describe /repo: restore the committed files
+        for c in checks:
+            sh(f"git -C {VERIF} checkout -- evidence/{c}.json")
     json.dump(out, open(os.path.join(VERIF, ".work", "seeded_last.json"), "w"), indent=1)
     return out
 
